@@ -23,6 +23,13 @@ PENDING = {
     "C20": "check designed (DESIGN.md sect. 4, engine S) but not built yet; not claimed until it runs",
 }
 TEXT = {
+    "C19": {
+        "engine": "N",
+        "design_ref": "DESIGN.md sect. 4 (C19), sect. 3.6, 3.7",
+        "technique": "deterministic simulation of the whole system (as C02) driven by seeded generated size-limit cases: padding clause decided at load time against an independent size/reachability formula, sharpness of the limit decided by executing the case through the real runner, reference client and reference server over the simulated network (any segmentation) under the shard's protocol, HTTP version and compression",
+        "level_text": "Seeded generation of expand directives (delta in a window around 0, at the varint boundaries of the padding length, around the template's own size and at total size -1/0/1) for unary, client-stream and half-duplex bidi requests with different initial padding. Load phase: rejected exactly when unreachable, never a crash, exact size and nothing but the padding changed. Run phase: delta <= 0 accepted with the request echoed intact by the receiving server, delta >= 1 rejected with resource_exhausted, under every compression of the shard (limit measured on the uncompressed size). Evidence, not proof; the deciding variable is the generated input.",
+        "level_note": "The reference client's receive limit is only exercised by the embedded client_message_size suite (inside C01): the repository itself notes that response sizes cannot be set exactly. Trusted: the reachability formula (tag + varint + payload) of the independent model.",
+    },
     "C02": {
         "engine": "N",
         "design_ref": "DESIGN.md sect. 4 (C02), sect. 3.6, 3.7",
